@@ -42,6 +42,14 @@ LEDGER_AS = ["every credit type has precision 6 (enforced by CreditType.Validate
              "addresses are known accounts (users, gov, module accounts); timestamps within protobuf range; infinite gas meter"]
 
 PROPS.update({
+    "C16": {
+        "prop_file": "Properties/C16.v",
+        "coq_targets": ["Properties/C16.vo", "Cases/DataRun.vo", "Data/Tie.vo"],
+        "families": [{"module": H, "cmd": "ledger", "args": ["-families", "data"], "emit": "data", "cache": True}],
+        "trusted_base": ["Data/DataMsgs.v is a hand transcription of x/data/server msg handlers and ValidateBasic (validated on traces of the real chain under the production, 4-output and constant ID hashers)",
+                         "the ID digest function is an arbitrary function with 8-byte output in the theorems; blake2b is an oracle table in the cases"],
+        "assumptions": ["|DataID| + #hashes < 2^62; resolver URL validity is url.ParseRequestURI, ported in the converter and carried as a boolean"],
+    },
     "C08": {
         "prop_file": "Properties/C08.v",
         "coq_targets": ["Properties/C08.vo", "Cases/LedgerRun.vo", "Ledger/Tie.vo"],
